@@ -211,6 +211,39 @@ def scopechain(repo):
             elif cur is not None and ast.unparse(first.elts[0]) != ast.unparse(cur):
                 res.add(key + "|own", f"{f.name}: first searched scope `{ast.unparse(first.elts[0])}` is not the returned "
                         f"current_scope `{ast.unparse(cur)}`", m.rel, n.lineno, f.name)
+    # the lookup sees the whole chain: every caller of the function that searches `visible_scopes` (and reports a name
+    # found twice as ambiguous) hands on its own `visible_scopes` / `current_scope` parameters as they are -- a caller
+    # that passes `(current_scope,)` resolves a name that is also visible from an outer scope by precedence
+    lookups = [f for f in m.top_funcs() if "visible_scopes" in [a.arg for a in f.node.args.args]
+               and any(isinstance(n, ast.For) and isinstance(n.iter, ast.Name) and n.iter.id == "visible_scopes" for n in walk_no_nested_funcs(f.node))
+               and "ambiguous_name_error" in ast.unparse(f.node)]
+    if len(lookups) != 1:
+        raise AnalysisError(f"symbol_resolver: {len(lookups)} functions search visible_scopes and report ambiguity (expected 1)")
+    lk = lookups[0]
+    lparams = [a.arg for a in lk.node.args.args]
+    ncalls = 0
+    for f in m.top_funcs():
+        if f is lk:
+            continue
+        fparams = [a.arg for a in f.node.args.args]
+        for c in walk_no_nested_funcs(f.node):
+            if not (isinstance(c, ast.Call) and call_name(c) == lk.name):
+                continue
+            ncalls += 1
+            bound = dict(zip(lparams, c.args))
+            bound.update({k.arg: k.value for k in c.keywords if k.arg})
+            for pname in ("visible_scopes", "current_scope"):
+                res.instances += 1
+                a = bound.get(pname)
+                if a is None or not (isinstance(a, ast.Name) and a.id == pname and pname in fparams):
+                    res.add(f"{m.rel}|{f.name}|lookup-{pname}", f"{f.name} calls {lk.name} with {pname}=`{ast.unparse(a) if a is not None else '?'}` "
+                            f"instead of the `{pname}` the traversal handed it: the search no longer covers every visible scope, so a name "
+                            "that is also defined in an outer scope (an import alias, a type of the enclosing structure) is bound by "
+                            "precedence instead of being rejected as ambiguous" if pname == "visible_scopes" else
+                            f"{f.name} calls {lk.name} with {pname}=`{ast.unparse(a) if a is not None else '?'}`: private names "
+                            "(abbreviations) are matched against the wrong scope", m.rel, c.lineno, f.name)
+    if ncalls < 2 and not res.findings:
+        raise AnalysisError(f"only {ncalls} calls of {lk.name} found")
     if res.instances < 2 and not res.findings:
         raise AnalysisError(f"only {res.instances} scope-opening actions found in symbol_resolver")
     res.analysed = [m.rel]
